@@ -25,6 +25,7 @@ EXPLANATION = (
     "joining removes exactly the one leading/trailing '&'. The flag logic of FortranReader.__next__ "
     "(doc buffering order, pending buffers) is not decided."
     " R5 is decided on the condition-annotated event trace of FortranReader.__next__ (what is assigned to the piece on the paths 'starts with & and continued' / 'ends with &'; a comment line inside an open literal is skipped). R6 (shared with C20.R4): the masking loops advance past the placeholder."
+    " Added after waves 6/7 - source text used as a regex replacement template has its backslashes doubled (no re.error / altered literal)."
 )
 ASSUMPTIONS = ["alphabet: printable ASCII + tab + one non-ASCII letter; statements contain no newline",
                "docmark instantiations: the four defaults, a two-character marker, markers with regex metacharacters"]
